@@ -51,11 +51,9 @@ pub fn warm_up_thread() {
     #[cfg(feature = "auto")]
     let _ = rust_cc::config::config(|_| ());
     let _ = std::panic::catch_unwind(|| std::panic::panic_any("warm-up"));
-    let c = rust_cc::Cc::new(0u32);
-    let c2 = c.clone();
-    drop(c);
-    drop(c2);
-    rust_cc::collect_cycles();
+    // (No Cc is created here: whatever the tree under test does wrong must happen inside an execution,
+    // where the oracles and the crash isolation can see it.)
+    let _ = rust_cc::state::buffered_objects_count();
     hk::reset_thread_state();
 }
 
@@ -75,33 +73,48 @@ pub fn run_history(cfg: &LensCfg, h: &[Op], with_epilogue: bool, keep_key_bytes:
     let c = world::ctx();
     c.model.borrow_mut().auto = cfg.auto_lens && cfg!(feature = "auto");
     let mut res = ExecResult::default();
-    let mut bad = false;
-    for op in h {
-        let out = world::step(*op);
-        res.crash_points = out.crash_points;
-        res.faulted_last = out.faulted;
-        if !c.violations.borrow().is_empty() {
-            bad = true;
-            break;
-        }
-    }
-    if !bad {
-        let mut kb: Vec<u8> = Vec::with_capacity(256);
-        world::canonical_key(&mut kb);
-        res.key = world::hash128(&kb);
-        res.summary = world::summary();
-        res.buffer_nonempty = res.summary.buffered > 0;
-        if keep_key_bytes {
-            let _p = alloc::pause();
-            res.key_bytes = Some(kb.clone());
-        }
-        if with_epilogue && cfg.epilogue {
-            let done = world::epilogue();
+    // A panic escaping here was raised while an oracle (not an operation) was calling into the crate
+    let body = std::panic::catch_unwind(std::panic::AssertUnwindSafe(|| {
+        let mut res = ExecResult::default();
+        let mut bad = false;
+        for op in h {
+            let out = world::step(*op);
+            res.crash_points = out.crash_points;
+            res.faulted_last = out.faulted;
             if !c.violations.borrow().is_empty() {
-                let _p = alloc::pause();
-                res.epilogue = done.clone();
+                bad = true;
+                break;
             }
         }
+        if !bad {
+            let mut kb: Vec<u8> = Vec::with_capacity(256);
+            world::canonical_key(&mut kb);
+            res.key = world::hash128(&kb);
+            res.summary = world::summary();
+            res.buffer_nonempty = res.summary.buffered > 0;
+            if keep_key_bytes {
+                let _p = alloc::pause();
+                res.key_bytes = Some(kb.clone());
+            }
+            if with_epilogue && cfg.epilogue {
+                let done = world::epilogue();
+                if !c.violations.borrow().is_empty() {
+                    let _p = alloc::pause();
+                    res.epilogue = done.clone();
+                }
+            }
+        }
+        res
+    }));
+    match body {
+        Ok(r) => res = r,
+        Err(p) => {
+            let _p = alloc::pause();
+            let msg = p.downcast_ref::<&'static str>().map(|s| s.to_string()).or_else(|| p.downcast_ref::<String>().cloned()).unwrap_or_else(|| "<non-string payload>".to_string());
+            world::unwind_fix_stack(0);
+            world::viol("ANY", "P-nopanic", format!("panic while an oracle was observing the state through the public API: {}", msg));
+            std::mem::forget(p);
+        },
     }
     {
         let _p = alloc::pause();
